@@ -4,6 +4,7 @@ package parser
 // warnings never do, and panic mode only suppresses follow-up errors.
 
 import (
+	"github.com/DDP-Projekt/Kompilierer/src/ast"
 	"github.com/DDP-Projekt/Kompilierer/src/ddperror"
 	"github.com/DDP-Projekt/Kompilierer/src/token"
 	rt "github.com/DDP-Projekt/Kompilierer/src/zzverif/rt"
@@ -33,4 +34,99 @@ func VerifC07ParserFlag() {
 	rt.Assert(rt.Implies(priorErrored, p.errored), "the failed flag is never cleared")
 	rt.Assert(rt.Implies(rt.And(!priorErrored, deliveredErrors == 0), !p.errored), "nothing delivered, nothing failed")
 	rt.Assert(p.panicMode, "after an error the parser is in panic mode")
+}
+
+// two modules in memory: the library is parsed first and handed to the parser of the main module
+// through Options.Modules, so that 'Binde "lib" ein.' needs no file system
+
+var vC07LibDecls = []string{
+	"Die öffentliche Funktion lib_f mit dem Parameter a vom Typ Zahl, gibt eine Zahl zurück, macht:\n\tGib a zurück.\nUnd kann so benutzt werden:\n\t\"stufe <a>\"\n\n",
+	"Die öffentliche Zahl wert ist 1.\n\n",
+	"Die Zahl privat ist 2.\n\n",
+	"Die öffentliche Funktion lib_g mit dem Parameter a vom Typ Text, gibt eine Zahl zurück, macht:\n\tGib 2 zurück.\nUnd kann so benutzt werden:\n\t\"die Stufe von <a>\"\n\n",
+}
+
+var vC07MainDecls = []string{
+	"Die Funktion main_f mit dem Parameter a vom Typ Zahl, gibt eine Zahl zurück, macht:\n\tGib a zurück.\nUnd kann so benutzt werden:\n\t\"stufe <a>\"\n\n",
+	"Die Zahl wert ist 5.\n\n",
+	"Die Zahl lib_f ist 6.\n\n",
+}
+
+var vC07Imports = []string{
+	"Binde \"lib\" ein.\n",
+	"Binde lib_f aus \"lib\" ein.\n",
+	"Binde wert und lib_g aus \"lib\" ein.\n",
+	"Binde privat aus \"lib\" ein.\n",
+	"Binde fehlt aus \"lib\" ein.\n",
+}
+
+// VerifC07ImportDiagnostics: every diagnostic delivered while parsing the main module carries
+// the main module's file name and a range that lies inside the main module's text.
+func VerifC07ImportDiagnostics() {
+	// the library's declarations lie on lines that the main module does not have
+	lib := ""
+	pad := "[ Bibliothek ]\n\n\n\n\n\n\n\n\n\n\n\n\n\n\n\n\n\n\n\n\n\n\n\n\n\n\n\n\n\n\n\n\n\n\n\n\n\n\n\n"
+	for _, d := range vC07LibDecls {
+		if rt.Bool("lib") {
+			lib += d
+		}
+	}
+	if lib == "" {
+		return // an empty Source makes Parse read the file: the library has at least one declaration
+	}
+	lib = pad + lib
+	main := ""
+	localFirst := rt.Bool("localFirst")
+	local := ""
+	for _, d := range vC07MainDecls {
+		if rt.Bool("main") {
+			local += d
+		}
+	}
+	imp := vC07Imports[rt.Choose("import", len(vC07Imports))]
+	if localFirst {
+		main = local + imp
+	} else {
+		main = imp + local
+	}
+	main += "Die Zahl ende ist 0.\n"
+	libErrors := 0
+	libMod, err := Parse(Options{FileName: "/m/lib.ddp", Source: []byte(lib), ErrorHandler: func(e ddperror.Error) {
+		if e.Level == ddperror.LEVEL_ERROR {
+			libErrors++
+		}
+	}})
+	if err != nil || libMod == nil || libErrors > 0 {
+		rt.Assert(err == nil && libMod != nil && libErrors == 0, "the library module is well-formed")
+		return
+	}
+	// the lines of the main module
+	var lineLen []int
+	n := 0
+	for _, r := range main {
+		if r == '\n' {
+			lineLen = append(lineLen, n)
+			n = 0
+		} else {
+			n++
+		}
+	}
+	lineLen = append(lineLen, n)
+	var diags []ddperror.Error
+	_, err = Parse(Options{FileName: "/m/main.ddp", Source: []byte(main), Modules: map[string]*ast.Module{"/m/lib.ddp": libMod},
+		ErrorHandler: func(e ddperror.Error) { diags = append(diags, e) }})
+	if err != nil {
+		_, crashed := err.(*ParserError)
+		rt.Assert(!crashed, "the frontend does not crash internally (ParserError)")
+		return
+	}
+	for _, e := range diags {
+		rt.Assert(e.File == "/m/main.ddp", "a diagnostic of the main module names the main module's file")
+		s, t := e.Range.Start, e.Range.End
+		rt.Assert(!t.IsBefore(s), "diagnostic range is ordered")
+		inside := func(p token.Position) bool {
+			return p.Line >= 1 && int(p.Line) <= len(lineLen) && p.Column >= 1 && int(p.Column) <= lineLen[p.Line-1]+2
+		}
+		rt.Assert(inside(s) && inside(t), "diagnostic range lies inside the text of the file it names")
+	}
 }
